@@ -42,6 +42,15 @@ def run(ctx):
             broken.append({"kind": "obligation", "name": "driver c11 crashed", "detail": err[-1500:]})
         dis = ctx.correspond(lines, orc, "kafka.Conn (conn.go, read.go, batch.go) ↔ Model/ConnOps.lean",
                              nontrivial=lambda op, impl: "kafka:" in impl)
+    by_op = {}
+    for l in (lines if (orc and drv) else []):
+        f = l.split(" ")
+        if len(f) > 2 and f[0] == "c11":
+            k = ":".join(f[2].split(":")[:2])
+            by_op[k] = by_op.get(k, 0) + 1
+        elif f[0] == "rr":
+            by_op["ReadResponse"] = by_op.get("ReadResponse", 0) + 1
+    ctx.coverage["cases_by_op_version"] = by_op
     ctx.coverage["rule"] = ("every Conn operation (apiVersions, listOffsets, metadata v1/v6, brokers, controller, produce v2/v3/v7, fetch v2/v5/v10, "
                             "create/delete topics, findCoordinator, joinGroup v1/v2, heartbeat, leaveGroup, syncGroup, listGroups, offsetCommit, offsetFetch, "
                             "saslHandshake v0/v1, saslAuthenticate) x {no error, each error field with sampled codes incl. -1/32767/-32768/36, several fields at once} "
